@@ -16,7 +16,7 @@ RULE = ('cases: (a) single-node scripts - a random node (station told nothing / 
         'frame handed to each adapter (decoded by the harness decoder), every PDU handed up with source/destination, exception class, '
         'next-hop view of the cache on a grid, parked packets.  (b) whole internetworks on vlan.Network - random trees of 2..8 '
         'networks, 1..3 stations per network, routers of 2..4 ports, 3-/4-rings and a ring with a tail; scripts of sends of every '
-        'destination kind from random stations, cold, organically warmed and installed caches; observed: the complete ordered trace of '
+        'destination kind from random stations (and, in 40 % of the trees, from an application on a router), cold, organically warmed and installed caches; observed: the complete ordered trace of '
         'frames on every LAN and deliveries, compared with the model world run on the same script.  non-trivial = at least one frame '
         'or delivery results; distinct by full script.')
 TRUSTED = ['model coq/theories/Net.v written by hand after netservice.py:329-706, 878-1026 and vlan.py:55-131; tie = correspondence',
@@ -601,13 +601,13 @@ def cases(rng, tier):
     big = tier == 'thorough'
     for ports, app, ev in (grid_scripts() if big else grid_scripts()[::4 if SCALE >= 1 else 12]):
         out.append(case_script('node-grid', ports, app, ev))
-    for _ in range(_n(8000 if big else 1600)):
+    for _ in range(_n(20000 if big else 2800)):
         ports, app, ev = rnd_script(rng)
         out.append(case_script('node-script', ports, app, ev))
-    for _ in range(_n(800 if big else 90)):
+    for _ in range(_n(2500 if big else 150)):
         topo = rnd_tree(rng, 8 if rng.random() < 0.5 else 4, apps=rng.random() < 0.4)
         out.append(case_world('tree-script', topo, rnd_world_script(rng, topo, rng.randrange(1, 6), 3000)))
-    for _ in range(_n(40 if big else 12)):
+    for _ in range(_n(80 if big else 16)):
         topo = ring(rng, rng.choice([3, 4]), tail=rng.random() < 0.4)
         out.append(case_world('ring-script', topo, rnd_world_script(rng, topo, rng.randrange(1, 3), 250)))
     rng.shuffle(out)        # spread the expensive whole-trace cases evenly over the Coq shards
@@ -869,7 +869,7 @@ def direct(rng, tier, focus=()):
             failures.append(f)
 
     # --- trees: every (source, kind, destination), cold start, caches warming as traffic flows
-    for t in range(_n(80 if big else 24)):
+    for t in range(_n(160 if big else 36)):
         topo = rnd_tree(rng, 8 if t % 2 == 0 else 5)
         triples = [(src, kind, dest, rec) for src in topo.station_ids for (kind, dest, rec) in all_dests(topo, src)]
         rng.shuffle(triples)
